@@ -35,6 +35,8 @@ CLAIMED = {
          "I/O-shape agreement between sibling exporter/importer implementations; constant agreement"),
  'C10': ("Static gate and agreement analysis of the Rabin key code: every accepting exit of key validation requires the self-signature over name|email|type|m|y|nizk; for keys with a validity proof each stage counter is compared with the library's round number and each stage loop checks its relation per round; the proof block the generator writes has the magic, delimiter and field structure the validator parses and both seed the common random numbers with m^y; verify accepts only on equality of the recomputed hash, decrypt only on the padding redundancy. Round-trip success for every key size and rejection of every altered field are not decided.", "§3 C10",
          "guard domination at accepting exits; writer/reader shape agreement between generator and validator"),
+ 'C09': ("Narrow structural claim: for every TMCG_Bigint operation that branches on the back end, the primitives applied on the secure (libgcrypt) path correspond, through a fixed table, to those on the plain (GMP) path with the object in the same operand position; the two back-end conversions use the same hexadecimal format; the table-based powers share exponent-length and sign handling. Four of the six clauses of C09 (numerical agreement of the power variants, square roots, prime generators, interpolation) concern computed values and are NOT decided.", "§3 C09",
+         "sibling agreement between the two back-end branches of one interface (primitive correspondence table, operand roles)"),
 }
 NA = {
  'C01': "algebraic identity over runtime group elements for all masking chains; no clause visible in code shape beyond what C03/C05/C08/C12 claim",
